@@ -829,7 +829,16 @@ def i_CMPXCHG(i, fmap):
     dst, src = i.operands
     acc = {8: al, 16: ax, 32: eax, 64: rax}[dst.size]
     t = fmap(acc == dst)
+    # flags are set as for CMP acc, dst:
+    a = fmap(acc)
+    v = fmap(dst)
+    x, carry, overflow = SubWithBorrow(a, v)
+    fmap[af] = halfborrow(a, v)
     fmap[zf] = tst(t, bit1, bit0)
+    fmap[sf] = x < 0
+    fmap[cf] = carry
+    fmap[of] = overflow
+    fmap[pf] = parity8(x[0:8])
     if dst.size == 32 and dst._is_reg:
         x = fmap(src).zeroextend(64)
         v = fmap(dst).zeroextend(64)
